@@ -72,6 +72,13 @@ def refStep (r : IRef) (t0 : List String) (obs : String) : IRef × String :=
   | ["iattempt", att, party, pl] =>
     let payload := (Bytes.ofHex (pl.drop 8).toString).getD []
     ({ r with atts := setS r.atts att ({ party, payload } : AttRec) }, "-")
+  | ["iexpect", "both", a, b] =>
+    -- after a reliable lock-step phase both attempts have completed, with each other
+    match lookupS r.atts a, lookupS r.atts b with
+    | some ra, some rb =>
+      if ra.successes ≥ 1 && rb.successes ≥ 1 && ra.partner = some b && rb.partner = some a then (r, "ok")
+      else (r, s!"FAIL C05 delivery was reliable (lock-step retransmission rounds) but the handshake did not complete on both ends: successes {a}={ra.successes} {b}={rb.successes}")
+    | _, _ => (r, "-")
   | op :: rest =>
     if op ∉ ["iinit", "ideliver", "itick", "isend"] then (r, "-") else
     let att := if op = "ideliver" then rest.getD 1 "" else rest.getD 0 ""
